@@ -350,6 +350,10 @@ def expand_macro(cases_, feats_by_schema, builder_tokens, tier, extra_env=None):
         frags = [fr for fr in frags if not fr.startswith("crates = ")]
         if crates:
             frags.append("crates = { %s }" % ", ".join(crates))
+        derives = [re.search(r"derives = \[(.*)\]", fr).group(1).strip() for fr in frags if fr.startswith("derives = ")]
+        frags = [fr for fr in frags if not fr.startswith("derives = ")]
+        if derives:
+            frags.append("derives = [%s]" % ", ".join(derives))
         src.append("pub mod mac_%d {\n    typify::import_types!(%s);\n}" % (i, ", ".join(frags)))
         src.append("pub mod bld_%d {\n%s\n}" % (i, builder_tokens[c["key"]]))
     with open(os.path.join(d, "src", "lib.rs"), "w") as f:
